@@ -45,6 +45,8 @@ type Op struct {
 	User bool   `json:"user,omitempty"`
 	Bare bool   `json:"bare,omitempty"`
 	NB   int64  `json:"nb,omitempty"`
+	B0   int64  `json:"b0,omitempty"`   // WriteStride: first block
+	Step int64  `json:"step,omitempty"` // WriteStride: distance between the blocks
 	P    bool   `json:"p,omitempty"`
 	Mode string `json:"mode,omitempty"`
 	R    bool   `json:"r,omitempty"`
@@ -126,6 +128,7 @@ type drv struct {
 	gone  []string
 	lmGate chan struct{}
 	lmDone chan error
+	plan   map[string]string // snapshot -> coalesce target of the plan PrepareRemoveDisk returned for it
 }
 
 // syncFile writes the image and the metadata of one snapshot the way the sync agent's
@@ -337,6 +340,14 @@ func (d *drv) exec1(op Op) {
 		// success is err == nil (what the RPC server relays)
 		_, err := s.WriteAt(fill(op.N, op.V), op.S0*rawfs.SectorSize)
 		d.emit("Write", map[string]interface{}{"s0": op.S0, "n": op.N, "v": op.V}, err, nil, nil)
+	case "WriteStride":
+		// op.N aligned whole-block writes at blocks B0, B0+Step, ...: one record (files with
+		// thousands of extents without thousands of records)
+		var err error
+		for i := int64(0); i < op.N && err == nil; i++ {
+			_, err = s.WriteAt(fill(rawfs.SPB, op.V), (op.B0+i*op.Step)*rawfs.BlockSize)
+		}
+		d.emit("WriteStride", map[string]interface{}{"b0": op.B0, "step": op.Step, "count": op.N, "v": op.V}, err, nil, nil)
 	case "Read":
 		buf := make([]byte, op.N*rawfs.SectorSize)
 		n, err := s.ReadAt(buf, op.S0*rawfs.SectorSize)
@@ -356,8 +367,20 @@ func (d *drv) exec1(op Op) {
 		if op.Bare {
 			arg = strings.TrimPrefix(op.Name, "s-")
 		}
-		_, err := s.PrepareRemoveDisk(arg)
-		d.emit("PrepareRemove", map[string]interface{}{"name": op.Name, "bare": op.Bare}, err, nil, nil)
+		acts, err := s.PrepareRemoveDisk(arg)
+		// the plan the callers (cleaner, controller) carry out: coalesce <source> into <target>, remove <source>
+		plan := [][]string{}
+		if d.plan == nil {
+			d.plan = map[string]string{}
+		}
+		for _, a := range acts {
+			plan = append(plan, []string{a.Action, rawfs.Norm(a.Source), rawfs.Norm(a.Target)})
+			if a.Action == replica.OpCoalesce && err == nil {
+				d.plan[rawfs.Norm(a.Source)] = a.Target
+			}
+		}
+		d.emitX("PrepareRemove", map[string]interface{}{"name": op.Name, "bare": op.Bare}, err, nil, nil, false,
+			map[string]interface{}{"plan": plan})
 	case "CleanerPick":
 		// what sync.Task.InternalSnapshotCleaner does in one round, minus the timer
 		var cand []string
@@ -383,6 +406,9 @@ func (d *drv) exec1(op Op) {
 			if di, ok := r.ListDisks()[child]; ok {
 				parent = di.Parent
 			}
+		}
+		if t, ok := d.plan[op.Name]; ok && t != "" {
+			parent = t // the target named by the plan of PrepareRemoveDisk, as the production callers use it
 		}
 		if parent == "" {
 			err = fmt.Errorf("no parent for %s", child)
